@@ -2378,7 +2378,7 @@ static void runFrac(const FracCase& c, Ctx& ctx)
     for (int j = 0; j < c.nfamPerFault; j++) ft.addFaultPerFamily(f[2 + 4 * j], f[3 + 4 * j], f[4 + 4 * j], f[5 + 4 * j]);
     x->addFault(ft);
   }
-  bool ok = roundTrip<FracEnviron>(cls, "Fracture Environ", "nf_FracEnviron", *x, []() { return new FracEnviron(); },
+  bool ok = roundTrip<FracEnviron>(cls, "FracEnviron", "nf_FracEnviron", *x, []() { return new FracEnviron(); },
                                    [](const std::string& p) { return FracEnviron::createFromNF(p, false); },
                                    [cls](const FracEnviron& a, const FracEnviron& b, Ctx& cx) {
                                      auto& ctx = cx;
